@@ -9,6 +9,7 @@ import (
 	"github.com/hknutzen/Netspoc-Approve/go/pkg/codefiles"
 	"github.com/hknutzen/Netspoc-Approve/go/pkg/errlog"
 	"github.com/hknutzen/Netspoc-Approve/go/pkg/program"
+	"github.com/hknutzen/Netspoc-Approve/go/pkg/verifhook"
 	expect "github.com/tailscale/goexpect"
 )
 
@@ -36,6 +37,17 @@ func GetSSHConn(spocFile, user string, cfg *program.Config, logLogin *os.File) (
 		cmd = strings.Fields(simul)
 	}
 	short := time.Duration(cfg.LoginTimeout) * time.Second
+	if con, ok, err := verifhook.SpawnConsole(cmd, short); ok {
+		if err != nil {
+			return nil, err
+		}
+		return &Conn{
+			con:          con,
+			log:          logLogin,
+			Timeout:      time.Duration(cfg.Timeout) * time.Second,
+			ShortTimeout: short,
+		}, nil
+	}
 	con, _, err := expect.SpawnWithArgs(cmd, short, expect.PartialMatch(true))
 	if err != nil {
 		return nil, err
